@@ -35,3 +35,21 @@ package gtab
 //@   ensures k == nil ==> keep
 //@   ensures k != nil ==> keep == keepSpec(k, gid)
 //@   modifies nothing
+
+//@ func (vr *GposValueRecord) Apply(glyph *glyph.Info)   props: C07 C06
+//@   requires glyph != nil
+//@   modifies glyph.*
+
+// Pair adjustment, format 2 (OpenType GPOS lookup type 2): if the pair has a
+// second value record, the next pair starts after the second glyph, otherwise
+// the second glyph is the first glyph of the next pair.
+//@ func (l *Gpos2_2) apply(ctx *Context, a int, b int) (next int)   props: C06 C07
+//@   requires l != nil && ctx != nil && 0 <= a && a < b && b <= len(ctx.seq)
+//@   requires ctx.keep != nil ==> ctx.keep.Meta != nil && ctx.keep.Gdef != nil
+//@   requires forall i int :: 0 <= i && i < len(l.Adjust) ==> forall j int :: 0 <= j && j < len(l.Adjust[i]) ==> l.Adjust[i][j] != nil
+//@   ensures next == -1 || (a < next && next <= b)
+//@   return_assert next >= 0 ==> a < p && p < b && next == ite(adj.Second == nil, p, p + 1)
+//@   modifies ctx.seq[*]
+//@   loop 0
+//@     invariant a < p && p <= b && b <= len(seq) && ref(seq) == ref(ctx.seq) && off(seq) == off(ctx.seq) && len(seq) == len(ctx.seq)
+//@     decreases b - p
